@@ -363,6 +363,27 @@ example : CP.dihedralAngle (⟨1, 0, 0⟩ : V3 ℝ) ⟨0, 1, 0⟩ = Real.pi / 2 
 example : V3.norm (⟨1, 0, 0⟩ : V3 ℝ) = 1 := by
   simp [V3.norm, V3.normSq, V3.dot]
 
+/-- hypotheses of `dihedral_def` hold for the unit normals of two adjacent cube faces -/
+example : CP.dihedralAngle (⟨1, 0, 0⟩ : V3 ℝ) ⟨0, 1, 0⟩ = SteinerSpec.dihedral ⟨1, 0, 0⟩ ⟨0, 1, 0⟩ :=
+  dihedral_def _ _ (by simp [V3.norm, V3.normSq, V3.dot]) (by simp [V3.norm, V3.normSq, V3.dot])
+
+/-- the neighbour lists `_find_neighbors` builds for the cube; opposite faces 0 and 5 are not
+neighbours, so `get_dihedral(0, 5)` raises `ValueError`, while `get_dihedral(0, 1)` returns -/
+example : CP.findNeighbors 6 c11_cubeCore.fi =
+    [[1, 2, 3, 4], [0, 2, 3, 5], [0, 1, 4, 5], [0, 1, 4, 5], [0, 2, 3, 5], [1, 2, 3, 4]] := by decide
+
+example : CP.getDihedral c11_cubeCore.normals (CP.findNeighbors 6 c11_cubeCore.fi) 0 5
+    = .error "ValueError" :=
+  getDihedral_raises _ _ 0 5 [1, 2, 3, 4] (by decide) (by decide)
+
+example : CP.getDihedral c11_cubeCore.normals (CP.findNeighbors 6 c11_cubeCore.fi) 0 1
+    = .ok (CP.dihedralAngle ⟨0, 0, -1⟩ ⟨0, -1, 0⟩) :=
+  getDihedral_ok _ _ 0 1 [1, 2, 3, 4] _ _ (by decide) (by decide) rfl rfl
+
+/-- descriptors of the cube of side 2 (`V = 8`, `S = 24`) and the square of side 2 -/
+example : Shape3D.iq (8 : ℝ) 24 = SteinerSpec.iq3 8 24 := iq_def 8 24 (by norm_num)
+example : Shape2D.iq (4 : ℝ) 8 = SteinerSpec.iq2 4 8 := iq2_def 4 8 (by norm_num)
+
 /-- a spherosquare: core `[0,2]²` given clockwise (`a = −4`), `r = 1/2`: area `4 + 8·½ + π/4` -/
 def c11_squareCw : List (V3 ℝ) := [⟨0,0,0⟩, ⟨0,2,0⟩, ⟨2,2,0⟩, ⟨2,0,0⟩]
 
